@@ -338,8 +338,12 @@ func C19(tier string) int {
 	}
 	bouts := []bOut{{"200", 200, false, false}, {"202", 202, false, false}, {"404", 404, false, false}, {"500", 500, false, false}, {"client-error", 0, true, false}, {"signer-error", 0, false, true}}
 	burls := []string{"https://r1.example/in", "https://r2.example/in", "https://r3.example/in"}
+	stuck := false
 	var genB func(n int, cur []int)
 	genB = func(n int, cur []int) {
+		if stuck {
+			return // one hanging batch is enough; its goroutines cannot be stopped
+		}
 		if len(cur) < n {
 			for i := range bouts {
 				genB(n, append(cur, i))
@@ -401,9 +405,21 @@ func C19(tier string) int {
 			for _, u := range rec {
 				rs = append(rs, ap.U(u))
 			}
-			err := tp.BatchDeliver(context.Background(), []byte("payload"), rs)
+			var err error
+			done := make(chan struct{})
+			go func() {
+				defer close(done)
+				err = tp.BatchDeliver(context.Background(), []byte("payload"), rs)
+			}()
 			res.Case(fmt.Sprintf("batch|%d|%v|%v", n, dup, names))
 			rep := M{"check": "C19", "part": "batch-outcomes", "recipients": rec, "outcomes": names}
+			select {
+			case <-done:
+			case <-time.After(60 * time.Second):
+				res.Violate("batch|does-not-finish", fmt.Sprintf("recipients %v outcomes %v: BatchDeliver did not return within 60 s", rec, names), rep)
+				stuck = true
+				return
+			}
 			if (err != nil) != (nFail > 0) {
 				res.Violate("batch|error-iff-failure", fmt.Sprintf("recipients %v outcomes %v: BatchDeliver returned %v", rec, names, err), rep)
 			}
